@@ -208,7 +208,7 @@ def run(ctx, proof):
     ctx.extra["rule"] = ("random reference structures over names {A..F, PATH, DIRECTORY, _}: plain definitions (command, alternatives, or "
                          "referring to later names directly / in an option / inside a word), specialisations for random shells, call variants "
                          "using a random subset directly or inside words; non-trivial = accepted grammar with at least one prescribed warning")
-    n = 15000 if ctx.thorough() else 500
+    n = 5000 if ctx.thorough() else 500
     cases = [(f"w{i}", gen_case(ctx.rng)) for i in range(n)]
     for i in range(0, len(cases), 250):
         run_batch(ctx, cases[i:i + 250])
